@@ -71,6 +71,15 @@ structure Res where
   tags : List String := []      -- coverage tags of this case
   nontrivial : Bool := true
   skipCompare : Bool := false   -- relation mode: only the monitors apply
+  implView : Option String := none  -- projection of the implementation output that `model` is compared with
 deriving Inhabited
+
+/-- keep the first token when it is not a key=value pair, and the listed keys -/
+def project (keys : List String) (s : String) : String :=
+  " ".intercalate ((words s).filter fun t =>
+    match t.splitOn "=" with
+    | [_] => true
+    | k :: _ => keys.contains k
+    | [] => false)
 
 end Drv
